@@ -259,6 +259,18 @@ def run(sc, budget=None):
         borrowers.append(AnyFileBorrower(Reader(i, b['holds'], 'borrow'), genTexts=b['genTexts']))
     comp.addBorrowers(*borrowers)
     opts = dict((k, v) for k, v in sc['options'].items() if v is not None)
+    # earlier calls on the same compiler object: what a call does depends on its own arguments only, so every
+    # invariant is judged on the last call as if the compiler were new
+    for w in sc.get('warmup') or []:
+        try:
+            comp.compile(*w['requested'], **dict((k, v) for k, v in w['options'].items() if v is not None))
+        except BaseException:   # noqa
+            pass
+        del log[:]
+        out.injected.clear()
+        out.gen_text.clear()
+        out.borrow_text.clear()
+        del out.parsed[:]
     try:
         out.result = comp.compile(*sc['requested'], **opts)
     except Runaway:
@@ -274,7 +286,7 @@ def run(sc, budget=None):
 
 @st.composite
 def scenarios(draw, max_user=4, max_sources=3, failures=True, searchers=True, borrowers=True, aliases=True,
-              base_variation=True, realgen=True, multi_file=True, options=None, bad_extra=False):
+              base_variation=True, realgen=True, multi_file=True, options=None, bad_extra=False, histories=True):
     n = draw(st.integers(1, max_user))
     user = list(USER[:n])
     universe = user + list(BASE)
@@ -369,9 +381,19 @@ def scenarios(draw, max_user=4, max_sources=3, failures=True, searchers=True, bo
     for k in ('noDeps', 'rebuild', 'dryRun', 'genTexts', 'ignoreErrors'):
         o[k] = opts[k] if k in opts else draw(st.sampled_from((None, False, True)))
     o['writeMibs'] = opts['writeMibs'] if 'writeMibs' in opts else draw(st.sampled_from((None, True, True, False)))
-    return {'universe': universe, 'user': user, 'imports': imports, 'sources': sources, 'requested': requested,
-            'codegen': codegen, 'writer': writer, 'searchers': srch, 'borrowers': borr, 'options': o,
-            'realgen': bool(realgen and draw(st.integers(0, 4)) == 0)}
+    sc = {'universe': universe, 'user': user, 'imports': imports, 'sources': sources, 'requested': requested,
+          'codegen': codegen, 'writer': writer, 'searchers': srch, 'borrowers': borr, 'options': o,
+          'realgen': bool(realgen and draw(st.integers(0, 4)) == 0)}
+    if histories and draw(st.integers(0, 3)) == 0:
+        warm = []
+        for i in range(draw(st.integers(1, 2))):
+            wo = {}
+            for k in ('noDeps', 'rebuild', 'dryRun', 'genTexts', 'ignoreErrors', 'writeMibs'):
+                wo[k] = draw(st.sampled_from((None, False, True)))
+            warm.append({'requested': draw(st.lists(st.sampled_from(user + ['MZ-MIB']), min_size=1, max_size=3, unique=True)),
+                         'options': wo})
+        sc['warmup'] = warm
+    return sc
 
 
 # ---------------------------------------------------------------------------
